@@ -191,7 +191,7 @@ def bw_func(*blocks, pat=None):
             a = a if isinstance(a, list) else [a]
             b = b if isinstance(b, list) else [b]
             out = 0
-            for p, q in zip(a, b, strict=True):
+            for p, q in zip(a, b):
                 out = out + (np.asarray(p) * np.asarray(q)).sum(axis=ax)
             return out
         return (np.asarray(a) * np.asarray(b)).sum(axis=ax)
